@@ -12,6 +12,8 @@ def get_class_counts(classes, n_classes):
             classes = torch.from_numpy(classes).long()
         else:
             classes = torch.tensor(classes, dtype=torch.long)
+    # labels of any integer dtype (a uint8 tensor used as index is a mask, int8/int16 tensors are no valid index)
+    classes = classes.long()
     # count unlabeled classes
     unlabeled_count = (classes == -1).sum().item()
     # filter out unlabeled
